@@ -603,8 +603,25 @@ class DipoleBody(Body):
         return np.zeros(3), n, "point"
 
 
+class FreeBody(Body):
+    """CustomSource: no geometry, no singular set."""
+
+    cls = "CustomSource"
+    kind = "custom"
+    L = 1.0
+
+    def dist(self, P):
+        return np.full(len(np.atleast_2d(P)), 1e9)
+
+    def surface_point(self, u):
+        n = direction_from_u(u[1], u[2])
+        return n, n, "none"
+
+
 def body_from_spec(spec) -> Body:
     c = spec["cls"]
+    if c == "CustomSource":
+        return FreeBody()
     if c == "Cuboid":
         return cuboid_body(spec["dimension"])
     if c == "Cylinder":
